@@ -298,6 +298,57 @@ def np_ufunc_outer(interp, name, args, kw, st, node):
     return A.binop(interp, op, col, row, st, node)
 
 
+@reg("numpy.expand_dims")
+def np_expand_dims(interp, name, args, kw, st, node):
+    b = bind(["a", "axis"], args, kw)
+    x = arrv(b["a"])
+    sh = shape(x)
+    ax = b.get("axis")
+    if sh is None or ax is None or not (ax.has_const and isinstance(ax.const, int)):
+        return fresh_arr(callterm(name, args, kw), None, x.labels)
+    k = ax.const if ax.const >= 0 else ax.const + len(sh) + 1
+    nsh = tuple(sh[:k]) + (Dim(1),) + tuple(sh[k:])
+    return V("arr", T("reshape1", x.term, *shape_terms(nsh)), shape=nsh, orig=x.orig, labels=x.labels, loc=x.loc, extra=x.extra if isinstance(x.extra, str) else None)
+
+
+def _pair_expand(interp, x, which, other_n, st, node):
+    """rows of x (n, D) repeated to pair with `other_n` partners: the broadcast of x[:, None, :] (which == 0)
+    or x[None, :, :] (which == 1) to (n0, n1, D), with the two leading axes merged"""
+    sh = shape(x)
+    n, d = sh
+    if which == 0:
+        unit, full = (n, Dim(1), d), (n, other_n, d)
+    else:
+        unit, full = (Dim(1), n, d), (other_n, n, d)
+    inner_t = T("bcast", T("reshape1", x.term, *shape_terms(unit)), *shape_terms(full))
+    inner = V("arr", inner_t, shape=full, orig=frozenset([FRESH]), labels=x.labels, loc=fresh_id())
+    interp.vtab[inner_t] = inner
+    return reshape_to(interp, inner, [A.int_of_dim(full[0].mul(full[1])), A.int_of_dim(d)], st, node)
+
+
+@reg("numpy.repeat")
+def np_repeat(interp, name, args, kw, st, node):
+    b = bind(["a", "repeats", "axis"], args, kw)
+    x, r, ax = arrv(b["a"]), b["repeats"], b.get("axis")
+    sh = shape(x)
+    rd = dim_of(r) if r is not None else None
+    if sh is not None and len(sh) == 2 and rd is not None and rd.known() and ax is not None and ax.has_const and ax.const == 0 and all(d.known() for d in sh):
+        return _pair_expand(interp, x, 0, rd, st, node)  # every row repeated consecutively
+    return fresh_arr(callterm(name, args, kw), None, _L(*args, *kw.values()))
+
+
+@reg("numpy.tile")
+def np_tile(interp, name, args, kw, st, node):
+    b = bind(["A", "reps"], args, kw)
+    x, reps = arrv(b["A"]), b["reps"]
+    sh = shape(x)
+    if sh is not None and len(sh) == 2 and all(d.known() for d in sh) and reps is not None and reps.kind in ("tuple", "list") and reps.items is not None and len(reps.items) == 2 and reps.items[1].has_const and reps.items[1].const == 1:
+        rd = dim_of(reps.items[0])
+        if rd is not None and rd.known():
+            return _pair_expand(interp, x, 1, rd, st, node)  # the whole block repeated
+    return fresh_arr(callterm(name, args, kw), None, _L(*args, *kw.values()))
+
+
 @reg("numpy.split", "numpy.array_split")
 def np_split(interp, name, args, kw, st, node):
     """np.split(A, cuts) with cuts = cumsum([0] + L)[1:-1] or cumsum(L)[:-1] and sum(L) == len(A):
